@@ -205,7 +205,10 @@ pub fn eof_world(rng: &mut Rng, runtime: &[Vec<u8>]) -> World {
             }
             // (a zero balance makes value-bearing EOFCREATE / EXTCALL fail before a frame exists)
             let bal = if rng.chance(1, 3) { 0 } else { rng.below(1000) };
-            w.accounts.insert(*a, Acct { balance: U256::from(bal), nonce: 1, code: c.clone(), storage: st });
+            // (a factory whose nonce is 2^64-1 makes EOFCREATE return before a frame exists, with a
+            // result class different from every other pre-frame rejection)
+            let nonce = if rng.chance(1, 8) { u64::MAX } else { 1 };
+            w.accounts.insert(*a, Acct { balance: U256::from(bal), nonce, code: c.clone(), storage: st });
         }
     }
     w.accounts.insert(C4, Acct { balance: U256::from(100u64), nonce: 1, code: legacy_caller(C1), ..Default::default() });
